@@ -1068,6 +1068,25 @@ def expected_type_names(sch: Schema, node, out: list, known=True):
             expected_type_names(sch, k, out, sub_known)
 
 
+def expected_attr_types(sch: Schema, node, out: list, known=True):
+    """per element (pre-order): {attribute name: declared type name} from the generator's own record of
+    the governing complex type; None = element not checked"""
+    ty = node.get('ty')
+    ok = known and ty is not None and not (node['xsi'] or '').startswith('undeclared:')
+    if ok and ty[0] == 'TC':
+        d = {}
+        for a in sch.all_attrs(sch.ctypes[ty[1]]):
+            st = a['type']
+            d[a['name']] = XS + st[1] if st[0] == 'B' else (clark(st[1]) if st[1] else '~')
+        out.append(d)
+    else:
+        out.append(None)
+    sub = ok and not (ty[0] == 'TS' and ty[1] == ('B', 'anyType'))
+    for k in node['kids']:
+        if not isinstance(k, str):
+            expected_attr_types(sch, k, out, sub)
+
+
 def canon_dec(d: Decimal) -> str:
     t = format(d, 'f')
     neg = t.startswith('-')
@@ -1418,6 +1437,12 @@ def check_case(run: Run, case: dict, ans: str, impl: Impl) -> None:
                 dis(f'attribute-node:{key}', f"{r['N']}/{r['D']}", model=f"{m['N']}/{m['D']}", site='xpath_nodes.attributes')
             if m['D'] == '1':
                 st.count('attr:defaulted')
+            owner = key[1:].split('.')[0]
+            decl = case.get('expected_attrs', {}).get(owner)
+            if valid and decl is not None and r['N'] in decl:
+                st.count('attr:declared-type-checked')
+                if r['T'] != decl[r['N']]:
+                    dis(f'declared-attr-type:{key}', r['T'], model=m['T'], spec=decl[r['N']], site='xpath_nodes.attributes')
         # ---- typed value --------------------------------------------------------------------
         mv, sv, iv = m['M'], m['S'], r['M']
         if mv == 'via':
@@ -1528,13 +1553,16 @@ def finish_case(sch: Schema, inst: dict, paths: list, lib: str, iof_rate: float)
         by_idx[i] = nm
     size = (max(by_idx) + 1) if by_idx else 0
     expected = [by_idx.get(i, '?') for i in range(size)]
+    anames: list = []
+    expected_attr_types(sch, inst, anames)
+    exp_attrs = {str(i): d for (e, i), d in zip(sorted(eidx.items(), key=lambda kv: kv[1]), anames) if d is not None}
     qs = []
     for dummy, e in paths:
         qs.append((dummy, path_xpath(e), expr_tokens(strip_abbr(e))))
     line = ' '.join(['S'] + sch.tokens() + ['T'] + forest_tokens(root) + ['Q', str(len(qs))] +
                     [t for d, _, toks in qs for t in ['P', '1' if d else '0'] + toks])
     return {'version': sch.version, 'xsd': sch.xsd(), 'xml': xml, 'lib': lib, 'paths': qs, 'line': line,
-            'expected_types': expected, 'iof_rate': iof_rate}
+            'expected_types': expected, 'expected_attrs': exp_attrs, 'iof_rate': iof_rate}
 
 
 def gen_case(rng, quick: bool) -> dict | None:
